@@ -226,6 +226,11 @@ def run(rep: Report, prog: Program, tier: str) -> None:
         if n < 4:
             raise AnalysisError(f"{q}: failure-outcome call sites not found on both branches")
 
+    rep.rule("R2.4b", "the sleeper receives decision.sleep_s unmodified (= C16 R16.3)")
+    from .c16 import sleep_action_tables
+
+    sleep_action_tables(rep, "R2.4b", prog)
+
     # ---- R2.5
     rep.rule("R2.5", "post-sleep gate: every way back to the loop head after a sleep or a failed attempt crosses the not-passed edge of an `elapsed() > deadline` test")
     res = run_runners(prog, lambda: GateClient(prog))
